@@ -3,7 +3,7 @@
 usage: tools/keep_seed.py <Cxx> <seedN> <seed-id> "<needs>" """
 import json, os, shutil, subprocess, sys
 prop, seed, sid, needs = sys.argv[1:5]
-src = f"/tmp/wt_{prop}/SEED/{seed}"
+src = f"/tmp/wt_{prop}/{os.environ.get('SEEDDIR','SEED')}/{seed}"
 dst = f"/verif/seeded/{sid}"
 os.makedirs(dst, exist_ok=True)
 for f in ("patch.diff", "demo.py", "notes.md"):
@@ -21,7 +21,7 @@ for line in r.stdout.splitlines():
             fired[cur]["rules"].append(rule)
 notes = open(os.path.join(src, "notes.md")).read()
 py = "/venv/bin/python"
-for v in ("3.9.18", "3.10.13", "3.11.7"):
+for v in ("3.9.18", "3.10.13", "3.11.7")[:: 1]:
     if f"/root/.pyenv/versions/{v}" in notes:
         py = f"/root/.pyenv/versions/{v}/bin/python3"
         break
